@@ -7,7 +7,10 @@ every exit pops, manual checks bind on the top, top level is stateless) predicts
 
 from __future__ import annotations
 
+import json
+import os
 import random
+import sys
 import warnings
 
 from .. import real
@@ -41,7 +44,7 @@ def shards(tier):
 
 def required_counters(tier):
     d = {f"pair.{c}.{e}": 1 for c in CONSTRUCTS if c != "nonbinding" for e in EXITS}
-    d.update({"programs": 1000, "observations": 10000, "depth>=3": 200, "argcheck.callee": 100, "argcheck.caller_after": 100, "argcheck.no_arg_in_frame": 100, "toplevel_checks": 200, "pair.nonbinding.TypeError": 50})
+    d.update({"programs": 1000, "observations": 10000, "depth>=3": 200, "argcheck.callee": 100, "argcheck.caller_after": 100, "argcheck.no_arg_in_frame": 100, "toplevel_checks": 200, "pair.nonbinding.TypeError": 50, "programs.optimized_interpreter": 20})
     return d
 
 
@@ -69,7 +72,11 @@ def chkarg(i, value):
 
 
 class Gen:
-    def __init__(self, rng, tc_name):
+    def __init__(self, rng, tc_name, optimized=False):
+        # optimized: the program is meant for `python -O`, where typeguard.typechecked and beartype.beartype both
+        # return the function unchanged (documented behaviour of both): annotated parameters are then never
+        # checked, hence never bound - contexts, {argument} values and manual isinstance checks work as always
+        self.optimized = optimized
         self.rng = rng
         self.tc = tc_name
         self.lines = []
@@ -210,7 +217,7 @@ class Gen:
                 caller_has_n = bool(self.stack) and self.stack[-1]["n"] is not None
                 return self.finish_body(bind_ind, depth + 1, caller_has_n, ex)
             fr = {"binds": {}, "n": n}
-            if bind_p:
+            if bind_p and not self.optimized:
                 fr["binds"][f"p{i}"] = size
             self.stack.append(fr)
             prop = self.finish_body(bind_ind, depth + 1, n is not None, ex)
@@ -260,7 +267,7 @@ class Gen:
             self.emit(ind, f"@functools.wraps(g_{i})")
             self.emit(ind, f"def f_{i}(x: {ann}, n: int):")
             self.emit(ind + 1, f"g_{i}(x, n)")
-            self.expected.append((j, "obs", {f"p{i}": size}))
+            self.expected.append((j, "obs", {} if self.optimized else {f"p{i}": size}))
             prop = framed(ind + 1, True, nval)
             return self.call_site(ind, i, f"f_{i}(A({size}), {nval})", prop, depth)
         if c == "unannotated":
@@ -353,7 +360,7 @@ class Gen:
             self.emit(ind + 2, f"obs({j2} * 1000 + n)")
             self.emit(ind + 1, "else:")
             for lv in range(levels, -1, -1):  # unroll the descent in the model
-                self.stack.append({"binds": {f"p{i}": size + (levels - lv), "q": lv + 1}, "n": lv})
+                self.stack.append({"binds": ({"q": lv + 1} if self.optimized else {f"p{i}": size + (levels - lv), "q": lv + 1}), "n": lv})
                 self.expected.append((j1 * 1000 + lv, "chk", True, self.tr()))
             prop = self.finish_body(ind + 2, depth + 1, True, ex)
             self.stack.pop()
@@ -415,6 +422,18 @@ def run_program(rec, rng, key):
         return
     got = [norm(e) for e in ns["LOG"]]
     exp = [tuple(e) for e in g.expected]
+    if _OTHER_INTERPRETER is not None and len(_OTHER_INTERPRETER) < OPT_PROGRAMS.get(_TIER[0], 4):
+        # a sibling program generated for an optimizing interpreter (python -O / -OO), run there in one batch
+        g2 = Gen(random.Random(key + "/optimized"), tc_name.split(".")[0] + "_tc", optimized=True)
+        g2.node_chk(0)
+        while g2.budget > 0 and len(g2.lines) < 400:
+            b0 = g2.budget
+            g2.construct(0, 0)
+            if g2.budget == b0:
+                g2.budget -= 1
+        g2.node_obs(0)
+        src2 = PRELUDE + "\n".join(g2.lines) + "\n"
+        _OTHER_INTERPRETER.append((key, src2, [tuple(e) for e in g2.expected], {"rngkey": key, "source": src2[:6000], "checker": tc_name}))
     rec.case(src, nontrivial=g.maxdepth >= 2)
     if len(g.lines) < 200:
         rec.sample({"rngkey": key, "program_head": "\n".join(g.lines)[:1800], "expected_log_head": [list(map(str, e)) for e in exp[:6]]})
@@ -472,11 +491,72 @@ def classify(exp, got):
     return "bindings-differ"
 
 
+OPT_PROGRAMS = {"quick": 6, "thorough": 60}
+_OTHER_INTERPRETER = None
+_TIER = ["quick"]
+
+
+def _jsonable(x):
+    return json.loads(json.dumps(x, default=str))
+
+
+def run_optimized(rec, jobs, flag):
+    """the same programs under `python -O` / `-OO` (asserts and docstrings compiled away): same logs"""
+    import subprocess
+    import tempfile
+
+    if not jobs:
+        return
+    root = os.path.dirname(os.path.dirname(os.path.dirname(os.path.abspath(__file__))))
+    with tempfile.NamedTemporaryFile("w", suffix=".json", delete=False) as f:
+        json.dump([[k, s] for k, s, _, _ in jobs], f)
+        jf = f.name
+    try:
+        env = dict(os.environ)
+        env["PYTHONPATH"] = os.pathsep.join([os.environ.get("JTV_REPO", "/repo"), root])
+        env.pop("PYTHONOPTIMIZE", None)
+        r = subprocess.run([sys.executable, flag, "-m", "jtv.checks.c05_child", jf], capture_output=True, text=True, env=env, timeout=1500, cwd=root)
+        try:
+            res = json.loads(r.stdout.strip().splitlines()[-1])
+        except Exception:
+            rec.inconclusive.append(f"python {flag} child failed: rc={r.returncode} {r.stderr[-400:]}")
+            return
+        if res.get("optimize", 0) < 1:
+            rec.inconclusive.append(f"python {flag} child did not run optimized")
+            return
+        for key, src, exp, case in jobs:
+            o = res["logs"].get(key)
+            rec.count("programs.optimized_interpreter")
+            rec.case((src, flag), True)
+            c2 = dict(case, interpreter="python " + flag)
+            if o is None or "crash" in o:
+                rec.violation("program-crashed", c2, f"under python {flag} the generated program raised {o and o['crash']}", mechanism="optimized-interpreter-program-crash")
+                return
+            got = sorted(json.dumps(e, sort_keys=True) for e in o["log"])
+            want = sorted(json.dumps(_jsonable(list(e)), sort_keys=True) for e in exp)
+            if got != want:
+                gi = {e[0]: e for e in o["log"]}
+                bad = next((e for e in exp if _jsonable(list(e)) != gi.get(e[0])), None)
+                rec.violation("lifetime", c2, f"under python {flag}: program point {bad and bad[0]}: reference interpreter expects {bad}, real {bad and gi.get(bad[0])}", mechanism="optimized-interpreter-bindings-differ")
+                return
+            if o["after"]:
+                rec.violation("lifetime", c2, f"under python {flag}: after the program, top-level print_bindings() prints {o['after']!r}", mechanism="optimized-interpreter-context-left-open")
+                return
+    finally:
+        os.unlink(jf)
+
+
 def run_shard(rec, seed, shard, tier):
+    global _OTHER_INTERPRETER
     warnings.filterwarnings("ignore")
+    _TIER[0] = tier
+    _OTHER_INTERPRETER = [] if shard["i"] % 4 in (0, 2) else None
     for k in range(CASES[tier]):
         key = f"{seed}/C05/{shard['i']}/{k}"
         run_program(rec, random.Random(key), key)
+    if _OTHER_INTERPRETER:
+        run_optimized(rec, _OTHER_INTERPRETER, "-O" if shard["i"] % 4 == 0 else "-OO")
+    _OTHER_INTERPRETER = None
 
 
 def replay(rec, case):
